@@ -393,6 +393,16 @@ func genScenario(prop string) func(t *rapid.T) *Scenario {
 			// rapid's slice lengths are skewed towards short ones; histories need some length
 			sc.Steps = append(sc.Steps, rapid.SliceOfN(rapid.Custom(genStep(pr, sc.Targets, sc.Threshold)), 12, 24).Draw(t, "more")...)
 		}
+		if prop == "C15" && rapid.IntRange(0, 3).Draw(t, "path-origins") == 2 {
+			// C15 only (its laws are about counters, which do not depend on how a removal is announced; for the
+			// feed this shape is inconsistent in the unchanged tree, DESIGN.md 10.7 (7)): the origin travels in the
+			// update/delete paths instead of the prefix - also the origin that is literally the metadata root's name.
+			for i := range sc.Steps {
+				if n := sc.Steps[i].N; n != nil && n.Origin == "" && rapid.IntRange(0, 2).Draw(t, "path-origin") > 0 {
+					n.PathOrigin = rapid.SampledFrom([]string{"o", "meta", "meta", "openconfig"}).Draw(t, "path-origin-name")
+				}
+			}
+		}
 		return sc
 	}
 }
